@@ -263,7 +263,7 @@ def judge(res: core.Res, label: str, paths: List[str], fmt: str, o: Outcome, w: 
         seen_real.add(rf)
         res.c('files_accounted')
         mods = by_path.get(rf, [])
-        reported = any((f in t or rf in t) and 'cannot parse' in t for t in texts)
+        reported = any((t.startswith(f + ':') or t.startswith(rf + ':')) and 'cannot parse' in t for t in texts)
         if any(m.state is model.ProcessingState.PROCESSED for m in mods):
             res.c('files_processed')
             if unparsable and rf in unparsable and not reported:
@@ -276,10 +276,14 @@ def judge(res: core.Res, label: str, paths: List[str], fmt: str, o: Outcome, w: 
             res.v('C01:file-lost', f'{label}: input file {f} was never made a module and no message names it', **w)
         else:
             mod = mods[0]
-            if system.allobjects.get(mod.fullName()) is not mod and any('duplicate' in t for t in texts):
+            winner = system.allobjects.get(mod.fullName())
+            wpath = os.path.realpath(str(winner.source_path)) if isinstance(winner, model.Module) and winner.source_path is not None else None
+            if winner is not mod and any('duplicate' in t for t in texts) and wpath in {os.path.realpath(x) for x in files}:
                 # two inputs with the same qualified name (module a.py next to package a/, two roots of the same name):
                 # they cannot both be documented, the later one wins and a "duplicate" message is issued
                 res.c('files_superseded_by_same_name')
+            elif winner is not mod and wpath is not None:
+                res.v('C01:input-file-displaced-by-non-input', f'{label}: {f} was never analysed: its module {mod.fullName()} was replaced by one read from {wpath}, which is not a Python source file of the tree', **w)
             else:
                 res.v(f'C01:module-not-processed:{mod.state.name}', f'{label}: module {mod.fullName()} ({f}) ended in state {mod.state.name} without a message naming the file', **w)
     if system.unprocessed_modules:
@@ -442,6 +446,13 @@ def _directed() -> Dict[str, Dict[str, Any]]:
                    f'def moved_func{i}(a):\n    """`nosuch_func_target_{i}`\n\n    :param nosuchparam_f{i}: x\n    """\n' for i in range(6))
     add('reexport-with-docstring-problems', {'pkg/__init__.py': 'from ._impl import *\nfrom ._impl import Moved0 as Renamed\n__all__ = ' + repr([f'Moved{i}' for i in range(1, 6)] + [f'moved_func{i}' for i in range(6)] + ['Renamed']) + '\n',
                                               'pkg/_impl.py': impl, 'pkg/user.py': 'from pkg import Moved1\nfrom pkg._impl import Moved2\nclass U(Moved1, Moved2):\n    def meth(self, a): pass\n', 'pkg/good.py': GOOD})
+    add('non-source-files-beside-modules', {'pkg/__init__.py': '', 'pkg/mod.py': GOOD, 'pkg/mod.pyc': b'\x00\x00\x00\x00garbage\xff', 'pkg/mod.pyo': b'\xffgarbage', 'pkg/mod.pyi': 'class OnlyInStub: ...\n',
+                                             'pkg/mod.py~': 'def broken(:\n', 'pkg/mod.py.bak': 'def broken(:\n', 'pkg/mod.txt': 'not python', 'pkg/mod.cpython-312-x86_64-linux-gnu.so': b'\x7fELFgarbage',
+                                             'pkg/other.pyw': 'class W: pass\n', 'pkg/README': 'x', 'pkg/sub/__init__.pyc': b'garbage', 'pkg/sub/orphan.py': 'x = 1\n', 'pkg/good.py': GOOD})
+    add('implementer-of-non-class', {'pkg/__init__.py': '', 'pkg/a.py': 'from zope.interface import implementer, Interface\nclass I(Interface):\n    def meth(): "doc"\n    attr = 1\ndef func(): pass\nvalue = 3\n@implementer(func, value, I)\nclass C:\n    def meth(self): pass\n    attr = 2\n@implementer(I)\ndef g(): pass\n', 'pkg/good.py': GOOD})
+    add('module-reexported-while-in-progress', {'pkg/__init__.py': '', 'pkg/a.py': 'from pkg import b\nclass X: pass\n', 'pkg/b.py': 'from pkg import a\nfrom . import c as renamed\n__all__ = ["a", "renamed"]\n', 'pkg/c.py': 'from . import b\nclass InC: pass\n', 'pkg/good.py': GOOD})
+    add('regex-odd', {'pkg/__init__.py': '', 'pkg/a.py': 'import re\nR = re.compile("a{99999999999999}")\nS = re.compile("(?P<n>x){4294967296}")\nT = re.compile("(" * 150 + ")" * 150)\nU = re.compile(b"\\xff{2,1}")\nV = re.compile("\\\\" )\nW = re.compile("[" )\nX = re.compile("(?P<a>x)(?P<a>y)")\nY = re.compile("\\N{NO SUCH NAME}")\nZ = re.compile("x", 10**30)\ndef f(p=re.compile("a{99999999999999}"), q=re.compile(*args), r=re.compile()): pass\n', 'pkg/good.py': GOOD})
+    add('doc-assignment-odd', {'pkg/__init__.py': '', 'pkg/a.py': 'class X:\n    pass\nX.__doc__ = "doc \\ud800 end"\ndef f(): pass\nf.__doc__ = "\\udfff"\nf.__doc__ = 1\nX.meth.__doc__ = "x"\nnosuch.__doc__ = "y"\nX.__doc__ += "more"\n__doc__ = "module \\ud800"\n', 'pkg/good.py': GOOD})
     add('same-path-twice', {'pkg/__init__.py': '', 'pkg/good.py': GOOD}, roots=['pkg', 'pkg'])
     add('several-roots', {'pkg/__init__.py': '', 'pkg/good.py': GOOD, 'other/__init__.py': 'from pkg.good import Good\n', 'single.py': 'import pkg\nclass S(pkg.good.Good): pass\n'}, roots=['pkg', 'other', 'single.py'])
     add('roots-same-name', {'a/pkg/__init__.py': 'x = 1\n', 'b/pkg/__init__.py': 'y = 2\n', 'b/pkg/good.py': GOOD}, roots=['a/pkg', 'b/pkg'])
@@ -525,7 +536,7 @@ def _run_generated(res: core.Res, label: str, files: Dict[str, Any], roots: List
             texts = [m[1] for m in msgs.messages(o.system)]
             for b in broken:
                 bp = os.path.join(base, b)
-                if bp in input_files(paths) and not any(bp in t for t in texts):
+                if bp in input_files(paths) and not any(t.startswith(bp + ':') for t in texts):
                     res.v('C01:unparsable-not-reported', f'{label}: no message names the unparsable file {b}', **w)
             # unparsable-neighbour differential: the same tree without the broken files (an unparsable __init__.py is emptied instead)
             base2 = tempfile.mkdtemp(prefix='vf01n-')
